@@ -17,7 +17,7 @@ Exhaustive product
   with AA} x k_batch {1,2,3,50} x {path object, nodes+length} : for every path point j, in path order,
   Energy / band gradients / Berry curvature of the TABresult equal `evaluate_k` at K_list[j]; result.kpoints is the path.
 * zoom paths (same oracle): straight 9-point paths with a spacing of {2.5e-6, 1e-6, 4e-7} in reduced coordinates (below the
-  1e-5 tolerance with which `self_to_path` identifies evaluated and path points) through centre {gen, K} along
+  1e-5 tolerance with which `self_to_path` identifies evaluated and path points) through centre {gen, a point near K, gen + (1,0,-1)} along
   {(1,-1,0), (1,0,0), skew} x system x k_batch {1,2,50} x entry {path with nk ; nodes + huge length ; coarse path refined
   by a factor 8}. Neighbouring points are distinct k-points with distinct values (checked per case: it is the premise for
   the case to count), so every point must still carry the values of its own k-point, not those of a close neighbour.
@@ -35,7 +35,7 @@ RULE = ("cases = (node list over the 7-letter alphabet, lattice) for constructio
         "combination; non-trivial = the node list has a break or >= 2 segments (construction), the path has more "
         "points than k_batch or a break or a periodic image / revisited point (tabulation); zoom tabulation cases = "
         "(centre, direction, spacing, system, k_batch, entry), non-trivial = the reference energies of every two "
-        "neighbouring path points differ by more than 100 x the comparison tolerance")
+        "neighbouring path points differ by more than 10 x the comparison tolerance")
 ASSUMPTIONS = [
     "nk >= 2 (a segment needs both end points), dk/length chosen away from rounding ties of the point count",
     "None (break) never first or last in the node list, as the docstring of Path requires",
@@ -43,7 +43,7 @@ ASSUMPTIONS = [
     "tabulators: Energy, band gradients, Berry curvature with default degeneracy threshold on both sides",
     "quick tabulates node lists of length <= 3; thorough all lengths <= 4",
     "zoom paths: one straight segment of 9 points, spacings 2.5e-6 / 1e-6 / 4e-7 (largest reduced component of the step), "
-    "two centres x three directions; quick runs the entries 'nodes'(length) and 'refined' with k_batch=2 only; spacings "
+    "three centres x three directions; quick runs the entries 'nodes'(length) and 'refined' with k_batch=2 only; spacings "
     "below 4e-7 (where neighbouring energies approach the 1e-9 comparison tolerance), zoom paths with breaks or several "
     "segments and zooms exactly onto a degeneracy are not covered",
 ]
@@ -57,7 +57,8 @@ SAMPLINGS = [("nk", 2), ("nk", 3), ("nk", 5), ("nklist", (2, 5, 3)), ("nklist", 
 
 
 # zoom paths: centre +- 4 steps along a direction; the step is `spacing` x direction (largest |component| = 1)
-ZOOM_CENTRES = {"gen": NODE_ALPHABET["gen"], "K": (1.0 / 3, 2.0 / 3, 0.0)}
+# (K itself is a band extremum of the Chiral model in the plane: nothing varies to first order there, hence "offK")
+ZOOM_CENTRES = {"gen": NODE_ALPHABET["gen"], "offK": (0.35, 0.64, 0.1), "genG1": (1.123, -0.271, -0.611)}
 ZOOM_DIRS = {"diag": (1.0, -1.0, 0.0), "axis": (1.0, 0.0, 0.0), "skew": (0.6, -0.3, 1.0)}
 ZOOM_STEPS = (2.5e-6, 1e-6, 4e-7)
 ZOOM_NPTS = 9
@@ -358,12 +359,12 @@ def run_tab(case, seed):
         singles.append(single)
     if zoom:
         # premise of a zoom case: the tabulated quantity varies along the path -- every two neighbouring points have
-        # energies that differ by more than 100 x the comparison tolerance (otherwise the case is run but does not count)
+        # energies that differ by more than 10 x the comparison tolerance (otherwise the case is run but does not count)
         E = np.array([np.array(sg["energy"]) for sg in singles])
         dmin = float(np.abs(np.diff(E, axis=0)).max(axis=1).min())
         escale = max(1.0, float(np.abs(E).max()))
         nontrivial = [("zoom", case["system"], zoom["centre"], zoom["dir"], zoom["step"], kb, case["entry"])] \
-            if dmin > 100 * TAB_TOL * escale else []
+            if dmin > 10 * TAB_TOL * escale else []
     if differs(res.kpoints, K, 1e-14 if zoom else 1e-12):
         return fail("evaluate_k_path:kpoints_not_the_path", case, f"k_batch={kb}: {np.array(res.kpoints).tolist()} expected {K.tolist()}", bool(nontrivial))
     for q in QUANTITIES + ["Energy"]:
